@@ -88,13 +88,26 @@ Regrid(r) ==
     /\ last' = [act |-> "Regrid", lenRel |-> r.lenRel, kRel |-> r.kRel]
     /\ UNCHANGED <<dom, rank, mutated>>
 
-Next == MutateCaller \/ Calculate \/ Build \/ Evaluate \/ \E r \in Regrids : Regrid(r)
+\* calculate(k) takes ANY array: the user (or another library) evaluates a source that matches its Domain exactly on wavenumbers
+\* of their own - same number of points, but one value off, all shifted, one NaN, or the same first and last value with other
+\* values in between (a non-uniform grid).  It is refused, whatever the object was evaluated on before, and nothing about the
+\* object changes (the next evaluation on the Domain's grid is verbatim again).
+Probes == {"onepoint", "shifted", "nan", "interior"}
+Probe(kr) ==
+    /\ stage \in {"constructed", "calculated", "built", "evaluated"}
+    /\ HasK(src.origin) /\ src.lenRel = "equal" /\ src.kRel = "exact"
+    /\ last' = [act |-> "Probe", kRel |-> kr, ret |-> "raises"]
+    /\ UNCHANGED <<src, dom, rank, stage, mutated, regridded>>
+
+Next == MutateCaller \/ Calculate \/ Build \/ Evaluate \/ (\E r \in Regrids : Regrid(r)) \/ (\E kr \in Probes : Probe(kr))
 
 \* ------------------------------------------------------------------ statements
 \* no correlation function is ever produced from mismatched data
 NeverFromMismatch == stage = "evaluated" => Matched(src)
 \* array input or a k column: rejected when evaluated; a one-column file: at the latest at Build / Evaluate
 RejectStage == (stage \in {"calculated", "built"} /\ ~Matched(src)) => src.origin = "file1"
+\* a k array that differs beyond the tolerance is refused however it was produced
+ProbeRefused == last.act = "Probe" => last.ret = "raises"
 \* matching data is never rejected
 MatchedNeverRejected == Matched(src) => stage # "rejected"
 \* whenever a call completes on matching data it hands out the stored values verbatim (bit for bit, in order);
